@@ -1,3 +1,21 @@
 #!/bin/bash
 # Differential conformance of the stub kernel against the live kernel (DESIGN.md §4.3).
-cd /verif && export GOFLAGS=-mod=mod GOPROXY=off GOSUMDB=off GOTOOLCHAIN=local && exec go1.26.8 test ./kconf/ -count=1 "$@"
+# The test binary runs in a private network namespace that has the stub's interface
+# table (lo, eth0 10.0.0.2, eth1 10.0.1.2; remote hosts 10.0.0.7 / 10.0.1.7 behind veth
+# pairs, default route through eth0), so the multi-interface multicast scripts run too.
+set -e
+cd /verif
+export GOFLAGS=-mod=mod GOPROXY=off GOSUMDB=off GOTOOLCHAIN=local
+mkdir -p .work
+go1.26.8 test -c -o .work/kconf.test ./kconf/
+exec unshare -rn sh -c '
+ip link set lo up
+ip link add eth0 type veth peer name rem0
+ip link add eth1 type veth peer name rem1
+ip addr add 10.0.0.2/24 dev eth0; ip addr add 10.0.1.2/24 dev eth1
+ip addr add 10.0.0.7/32 dev rem0; ip addr add 10.0.1.7/32 dev rem1
+for i in eth0 eth1 rem0 rem1; do ip link set $i up; done
+ip route add default dev eth0
+for f in /proc/sys/net/ipv4/conf/*/rp_filter; do echo 0 > $f; done
+for f in /proc/sys/net/ipv4/conf/*/accept_local; do echo 1 > $f; done
+cd /verif/kconf && exec ../.work/kconf.test -test.count=1 "$@"' sh "$@"
